@@ -972,7 +972,8 @@ fn gen_rankdef(rng: &mut StdRng, m: usize, n: usize, r: usize) -> Option<(IM, Ce
 /// Deterministic rank-deficient inputs.  The first one is the input on which svd_solve once
 /// returned Ok with NaN rows in f32 below a scale of 2^-37 (subnormal Householder row norm in
 /// svd_mut; repaired by commit 855218f): u * [1,-2,2,-1] with u = [2,-2,-2,2,1,2,-1].  The others
-/// are siblings of rank 1 and 2 in the shapes 7x4, 5x5 and 4x7.
+/// are siblings of rank 1 and 2 in the shapes 7x4, 5x5 and 4x7, and the 6x5 rank-1 input of the
+/// known finding "f32, nullity >= 3" (NaN in V at every scale).
 fn fixed_rankdef() -> Vec<(IM, Cert, IM, Vec<usize>)> {
     let col = |v: &[i64]| -> IM { v.iter().map(|&x| vec![x]).collect() };
     let specs: Vec<(IM, IM, Vec<usize>)> = vec![
@@ -984,6 +985,8 @@ fn fixed_rankdef() -> Vec<(IM, Cert, IM, Vec<usize>)> {
         (vec![vec![1, 1], vec![1, -1], vec![2, 0], vec![0, 2], vec![-1, 1]],
          vec![vec![1, 2, -1], vec![-1, 1, 2]], vec![4, 0, 1, 2, 3]),
         (col(&[1, -2, 2, -1]), vec![vec![2, -2, -2, 2, 1, -1]], vec![0, 1, 2, 3, 4, 5, 6]),
+        // u * [-1,2,1,-2,-2]: nullity 4; in f32 the residues cascade 1e-7 -> 1e-20 -> 1e-34 at any scale
+        (col(&[2, 1, -1, 2, -2, -1]), vec![vec![-1, 2, -2, -2]], vec![2, 0, 1, 3, 4]),
     ];
     specs.iter().map(|(mm, z, p)| rankdef_build(mm, z, p).expect("fixed rank-deficient case")).collect()
 }
@@ -1383,7 +1386,7 @@ fn gen_random(path: &str) {
         one_input(&mut out, &mut stats, &mut rng, run, &name, a, cert, false, false, None, None);
     }
     // size ladder: orders 20, 33, 64 with certificates that are known by construction
-    let reps = if big { 8 } else { 1 };
+    let reps = if big { 2 } else { 1 };
     for rep in 0..reps {
         for &n in &[20usize, 33, 64] {
             let mut inputs: Vec<(String, IM, Cert)> = Vec::new();
@@ -1604,6 +1607,19 @@ fn replay_spec(inp: &str, path: &str) {
     println!("{}", json!({"events": n}));
 }
 
+/// development aid: print the raw f32 / f64 SVD of the matrix of the first event of a file
+fn probe_svd(inp: &str) {
+    let e = &read_ndjson(inp)[0];
+    let a: IM = serde_json::from_value(e["A"].clone()).unwrap();
+    let se = e["se"].as_i64().unwrap() as i32;
+    let a32 = to_mat::<f32>(&a, se);
+    let a64 = to_mat::<f64>(&a, se);
+    let s32 = a32.svd().unwrap();
+    let s64 = a64.svd().unwrap();
+    println!("f32 s = {:?}\nf32 V = {:?}\nf32 U = {:?}", s32.s, rows_of(&s32.V, 1.0), rows_of(&s32.U, 1.0));
+    println!("f64 s = {:?}", s64.s);
+}
+
 fn main() {
     silence_panics();
     let args: Vec<String> = std::env::args().collect();
@@ -1612,6 +1628,7 @@ fn main() {
         "gen-exhaustive" => gen_exhaustive(arg(&args, 2)),
         "replay-file" => replay(arg(&args, 2), arg(&args, 3)),
         "replay-spec" => replay_spec(arg(&args, 2), arg(&args, 3)),
+        "probe-svd" => probe_svd(arg(&args, 2)),
         x => {
             eprintln!("unknown sub-command {}", x);
             std::process::exit(2)
